@@ -554,6 +554,14 @@ class Schema(ResolverMap):
             query_type=self.query_type,
             mutation_type=self.mutation_type,
             subscription_type=self.subscription_type,
+            types=[
+                t
+                for t in self.types.values()
+                if (
+                    t not in SPECIFIED_SCALAR_TYPES
+                    and t not in INTROPSPECTION_TYPES
+                )
+            ],
             nodes=self.nodes,
         )
 
